@@ -7,7 +7,7 @@ open AsmjitVerif.FaultBuilder (reserveGrow8 reserveGrow8_le reserveGrow8_lt rese
 set_option maxHeartbeats 1600000
 
 /-- everything a client sees except the number of labels -/
-def shape (v : CView) : List CNode × Nat × List Bool × Bool := (v.nodes, v.cursor, v.regs, v.isOpen)
+def shape (v : CView) : List CNode × Nat × List Bool × Bool × Nat × Nat := (v.nodes, v.cursor, v.regs, v.isOpen, v.pendExtra, v.pendOpts)
 
 /-! ## `register_label_node` -/
 
@@ -17,8 +17,12 @@ theorem registerLabel_spec (o : Oracle) (s : CSt) :
     ((registerLabel o s).2.2 = true → (registerLabel o s).2.1.v.labelCount = s.v.labelCount + 1) ∧
     faults (registerLabel o s).1 ≤ faults o ∧ ((registerLabel o s).2.2 = false → faults (registerLabel o s).1 < faults o) := by
   unfold registerLabel
-  repeat' split
-  all_goals (simp [shape]; try grind)
+  rcases hr : reserveAdd o s.v.labelCount s.c.labCap 1 16 with ⟨o1, c1, b1⟩
+  cases b1
+  · simp [shape]; grind
+  · simp only
+    rcases hg : reserveGrow8 o1 s.c.lnCap (s.v.labelCount + 1) with ⟨o2, c2, b2⟩
+    cases b2 <;> (simp [shape]; grind)
 
 theorem endFunc_not_oom (v : CView) : (endFuncView v).2 ≠ .oom := by
   unfold endFuncView
@@ -32,12 +36,12 @@ theorem newReg_oom (o o' : Oracle) (s s' : CSt) (l : Bool) (h : newReg o s l = (
   repeat' split at h
   all_goals (first | (cases h; done) | (cases h; rfl))
 
-theorem invoke_oom (o o' : Oracle) (s s' : CSt) (n : Nat) (h : invoke o s n = (o', s', .oom)) : s'.v = s.v := by
-  unfold invoke at h
+theorem invokeCore_oom (o o' : Oracle) (s s' : CSt) (n : Nat) (h : invokeCore o s n = (o', s', .oom)) : s'.v = s.v := by
+  unfold invokeCore at h
   repeat' split at h
   all_goals (first | (cases h; done) | (cases h; rfl))
 
-theorem emit_oom (o o' : Oracle) (s s' : CSt) (k : Nat) (h : emit o s k = (o', s', .oom)) : s'.v = s.v := by
+theorem emit_oom (o o' : Oracle) (s s' : CSt) (k : Nat) (h : emit o s k = (o', s', .oom)) : s'.v = clearPending s.v := by
   unfold emit at h
   repeat' split at h
   all_goals (first | (cases h; done) | (cases h; rfl))
@@ -63,9 +67,9 @@ theorem funcTail_oom (v0 : CView) (nargs : Nat) (r : Oracle × CSt × Bool) (o' 
         · cases h
 
 /-- `compiler_fail_atomic_exact` for `add_func`: nodes, cursor, registers untouched; up to two label ids may be used up -/
-theorem addFunc_oom (o o' : Oracle) (s s' : CSt) (n : Nat) (h : addFunc o s n = (o', s', .oom)) :
+theorem addFuncCore_oom (o o' : Oracle) (s s' : CSt) (n : Nat) (h : addFuncCore o s n = (o', s', .oom)) :
     shape s'.v = shape s.v ∧ s.v.labelCount ≤ s'.v.labelCount ∧ s'.v.labelCount ≤ s.v.labelCount + 2 := by
-  unfold addFunc at h
+  unfold addFuncCore at h
   split at h
   · cases h; exact ⟨rfl, Nat.le_refl _, by omega⟩
   · split at h
@@ -75,20 +79,38 @@ theorem addFunc_oom (o o' : Oracle) (s s' : CSt) (n : Nat) (h : addFunc o s n = 
       have h2 := funcTail_oom _ _ _ _ _ h
       exact ⟨h2.1.trans h1.1, by omega, by omega⟩
 
+/-- what a failed call leaves of the observable state apart from label ids: `_emit`, `add_func` and `invoke` have consumed
+(cleared) the one-shot state - `_emit` resets it on both paths, the other two take it with `_grab_state()` before anything can
+fail -, `new_virt_reg` and `end_func` never touch it -/
+def afterFail (op : COp) (v : CView) : CView :=
+  match op with
+  | .emit _ | .addFunc _ | .invoke _ => clearPending v
+  | _ => v
+
 /-- `compiler_fail_atomic_exact`: a Compiler call answered out of memory left node list, cursor, registers and the open function
-untouched; only `add_func` may have used up label ids of the CodeHolder - at most two -/
+untouched and the one-shot state as `afterFail` says (cleared by `_emit` / `add_func` / `invoke`, never left pending from the
+failed call); only `add_func` may have used up label ids of the CodeHolder - at most two -/
 theorem cstep_oom_exact (op : COp) (o o' : Oracle) (s s' : CSt) (h : cstep op o s = (o', s', .oom)) :
-    shape s'.v = shape s.v ∧ s.v.labelCount ≤ s'.v.labelCount ∧ s'.v.labelCount ≤ s.v.labelCount + 2 ∧
-    ((∀ n, op ≠ .addFunc n) → s'.v = s.v) := by
+    shape s'.v = shape (afterFail op s.v) ∧ s.v.labelCount ≤ s'.v.labelCount ∧ s'.v.labelCount ≤ s.v.labelCount + 2 ∧
+    ((∀ n, op ≠ .addFunc n) → s'.v = afterFail op s.v) := by
   cases op <;> simp only [cstep] at h
   case newReg l => have := newReg_oom _ _ _ _ _ h; rw [this]; exact ⟨rfl, Nat.le_refl _, by omega, fun _ => rfl⟩
-  case addFunc n => have := addFunc_oom _ _ _ _ _ h; exact ⟨this.1, this.2.1, this.2.2, fun hn => absurd rfl (hn n)⟩
-  case invoke n => have := invoke_oom _ _ _ _ _ h; rw [this]; exact ⟨rfl, Nat.le_refl _, by omega, fun _ => rfl⟩
-  case emit k => have := emit_oom _ _ _ _ _ h; rw [this]; exact ⟨rfl, Nat.le_refl _, by omega, fun _ => rfl⟩
+  case addFunc n =>
+    have := addFuncCore_oom _ _ _ _ _ h
+    exact ⟨this.1, this.2.1, this.2.2, fun hn => absurd rfl (hn n)⟩
+  case invoke n =>
+    have := invokeCore_oom _ _ _ _ _ h
+    simp only at this
+    rw [this]; exact ⟨rfl, Nat.le_refl _, by simp [clearPending], fun _ => rfl⟩
+  case emit k =>
+    have := emit_oom _ _ _ _ _ h
+    rw [this]; exact ⟨rfl, Nat.le_refl _, by simp [clearPending], fun _ => rfl⟩
   case endFunc =>
     have := endFunc_not_oom s.v
     simp at h
     exact absurd h.2.2 this
+  case setExtra r => cases h
+  case setOpts b => cases h
 
 /-! ## fault accounting -/
 
@@ -128,19 +150,19 @@ theorem cstep_faults (op : COp) (o o' : Oracle) (s s' : CSt) (e : Err) (h : cste
     repeat' split at h
     all_goals (cases h; grind)
   case addFunc n =>
-    unfold addFunc at h
+    unfold addFunc addFuncCore at h
     split at h
     · cases h; grind
     · split at h
       · cases h; grind
       · rename_i o1 hr1 _ o2 hr2
-        have h1 := registerLabel_spec o2 s
+        have h1 := registerLabel_spec o2 { s with v := clearPending s.v }
         have := funcTail_faults _ _ _ o2 _ _ _ ⟨h1.2.2.2.2.1, h1.2.2.2.2.2⟩ h
         have e1 := req_le _ _ _ hr1
         have e2 := req_le _ _ _ hr2
         grind
   case invoke n =>
-    unfold invoke at h
+    unfold invoke invokeCore at h
     repeat' split at h
     all_goals (cases h; grind)
   case emit k =>
@@ -148,6 +170,8 @@ theorem cstep_faults (op : COp) (o o' : Oracle) (s s' : CSt) (e : Err) (h : cste
     repeat' split at h
     all_goals (cases h; grind)
   case endFunc => cases h; simp [Acct]; exact endFunc_not_oom s.v
+  case setExtra r => cases h; simp [Acct]
+  case setOpts b => cases h; simp [Acct]
 
 
 /-! ## other answers refine the failure-free meaning -/
@@ -168,6 +192,7 @@ theorem registerLabel_ok_view (o : Oracle) (s : CSt) (h : (registerLabel o s).2.
 
 theorem funcTail_ref (v0 : CView) (nargs : Nat) (r : Oracle × CSt × Bool) (o' : Oracle) (s' : CSt) (e : Err)
     (hv : r.2.2 = true → r.2.1.v = { v0 with labelCount := v0.labelCount + 1 })
+    (hp : v0.pendExtra = 0 ∧ v0.pendOpts = 0)
     (h : funcTail v0 nargs r = (o', s', e)) (he : e ≠ .oom) : (s'.v, e) = cspec (.addFunc nargs) v0 := by
   obtain ⟨o1, s1, b⟩ := r
   unfold funcTail at h
@@ -189,7 +214,7 @@ theorem funcTail_ref (v0 : CView) (nargs : Nat) (r : Oracle × CSt × Bool) (o' 
           have hr2' : (registerLabel a.1 s1).2.2 = true := by simpa using hr2
           have hv2 := registerLabel_ok_view a.1 s1 hr2'
           cases h
-          simp [cspec, hv2, hv1]
+          simp [cspec, hv2, hv1, hp.1, hp.2]
 
 /-- `compiler_answer_refines_spec` -/
 theorem cstep_ref (op : COp) (o o' : Oracle) (s s' : CSt) (e : Err) (h : cstep op o s = (o', s', e)) (he : e ≠ .oom) :
@@ -202,16 +227,18 @@ theorem cstep_ref (op : COp) (o o' : Oracle) (s s' : CSt) (e : Err) (h : cstep o
     all_goals (first | (cases h; simp at he; done) | (cases h; left; simp_all [cspec]; done) | (cases h; right; simp_all; done))
   case addFunc n =>
     left
-    unfold addFunc at h
+    unfold addFunc addFuncCore at h
+    have hcs : cspec (.addFunc n) (clearPending s.v) = cspec (.addFunc n) s.v := by simp [cspec, clearPending]
     split at h
     · cases h; simp at he
     · split at h
       · cases h; simp at he
       · rename_i o2 _
-        exact funcTail_ref _ _ _ _ _ _ (registerLabel_ok_view o2 s) h he
+        rw [← hcs]
+        exact funcTail_ref _ _ _ _ _ _ (registerLabel_ok_view o2 _) ⟨rfl, rfl⟩ h he
   case invoke n =>
     left
-    unfold invoke at h
+    unfold invoke invokeCore at h
     repeat' split at h
     all_goals (first | (cases h; simp at he; done) | (cases h; simp [cspec]))
   case emit k =>
@@ -220,6 +247,8 @@ theorem cstep_ref (op : COp) (o o' : Oracle) (s s' : CSt) (e : Err) (h : cstep o
     repeat' split at h
     all_goals (first | (cases h; simp at he; done) | (cases h; simp [cspec]))
   case endFunc => left; cases h; simp [cspec]
+  case setExtra r => left; cases h; rfl
+  case setOpts b => left; cases h; rfl
 
 /-! ## the component invariant -/
 
@@ -253,40 +282,46 @@ theorem cstep_inv (op : COp) (o o' : Oracle) (s s' : CSt) (e : Err) (hI : CInv s
     all_goals (cases h; (try simp); grind)
   case addFunc n =>
     unfold addFunc at h
+    have hI0 : CInv ({ s with v := clearPending s.v } : CSt) := by unfold CInv at *; simpa [clearPending] using hI
+    generalize hs0 : ({ s with v := clearPending s.v } : CSt) = s0 at h hI0
+    have hl0 : s0.v.labelCount = s.v.labelCount ∧ s0.v.regs = s.v.regs := by subst hs0; exact ⟨rfl, rfl⟩
+    unfold addFuncCore at h
     split at h
-    · cases h; exact ⟨hI, by omega, by omega⟩
+    · cases h; exact ⟨hI0, by omega, by simp [hl0.2]⟩
     · split at h
-      · cases h; exact ⟨hI, by omega, by omega⟩
+      · cases h; exact ⟨hI0, by omega, by simp [hl0.2]⟩
       · rename_i o2 _
-        have h1 := registerLabel_inv o2 s hI (by omega)
-        have hs1 := registerLabel_spec o2 s
-        generalize registerLabel o2 s = r at h h1 hs1
+        have h1 := registerLabel_inv o2 s0 hI0 (by omega)
+        have hs1 := registerLabel_spec o2 s0
+        generalize registerLabel o2 s0 = r at h h1 hs1
         obtain ⟨o3, s3, b3⟩ := r
         unfold funcTail at h
         simp only at h h1 hs1
         split at h
-        · cases h; exact ⟨h1.1, by omega, by simp [h1.2.1]⟩
+        · cases h; exact ⟨h1.1, by omega, by simp [h1.2.1, hl0.2]⟩
         · split at h
-          · cases h; exact ⟨h1.1, by omega, by simp [h1.2.1]⟩
+          · cases h; exact ⟨h1.1, by omega, by simp [h1.2.1, hl0.2]⟩
           · rename_i o4 _
             generalize (if n ≠ 0 then (match req o4 with | (true, o2) => (o2, false) | (false, o2) => (o2, true)) else (o4, true) : Oracle × Bool) = a at h
             split at h
-            · cases h; exact ⟨h1.1, by omega, by simp [h1.2.1]⟩
+            · cases h; exact ⟨h1.1, by omega, by simp [h1.2.1, hl0.2]⟩
             · have h2 := registerLabel_inv a.1 s3 h1.1 (by omega)
               have hs2 := registerLabel_spec a.1 s3
               split at h
-              · cases h; exact ⟨h2.1, by omega, by simp [h2.2.1, h1.2.1]⟩
+              · cases h; exact ⟨h2.1, by omega, by simp [h2.2.1, h1.2.1, hl0.2]⟩
               · cases h
-                refine ⟨?_, by simp; omega, by simp [h2.2.1, h1.2.1]⟩
+                refine ⟨?_, by simp; omega, by simp [h2.2.1, h1.2.1, hl0.2]⟩
                 have := h2.1; unfold CInv at this ⊢; simpa using this
   case invoke n =>
-    unfold invoke at h
+    unfold invoke invokeCore at h
     repeat' split at h
-    all_goals (cases h; exact ⟨by unfold CInv at *; simpa [link] using hI, by simp [link], by simp [link]⟩)
+    all_goals (cases h; exact ⟨by unfold CInv at *; simpa [link, clearPending] using hI, by simp [link, clearPending], by simp [link, clearPending]⟩)
   case emit k =>
     unfold emit at h
     repeat' split at h
-    all_goals (cases h; exact ⟨by unfold CInv at *; simpa [link] using hI, by simp [link], by simp [link]⟩)
+    all_goals (cases h; exact ⟨by unfold CInv at *; simpa [link, clearPending] using hI, by simp [link, clearPending], by simp [link, clearPending]⟩)
+  case setExtra r => cases h; exact ⟨by unfold CInv at *; simpa using hI, by simp, by simp⟩
+  case setOpts b => cases h; exact ⟨by unfold CInv at *; simpa using hI, by simp, by simp⟩
   case endFunc =>
     cases h
     unfold endFuncView
